@@ -268,7 +268,7 @@ def run(ctx):
     er7mc.model_check(ctx)
     # abstract documents = the reachable states of the bounded generator (plain, non-MSH segments with >= 1 leaf)
     import os
-    cfg = os.path.join(tlc.SPEC_DIR, "_gen_Er7MC_docs.cfg")
+    cfg = os.path.join(tlc.SPEC_DIR, "_gen_Er7MC_docs_%d.cfg" % os.getpid())
     with open(cfg, "w") as f:
         f.write(er7mc.cfg_text(5 if quick else 6, msh=False, fields=2))
     try:
